@@ -268,7 +268,15 @@ func expectFromSource(kind, src string, cfg g.SimulatorConfig) (*c07case, error)
 			return nil, fmt.Errorf("unsupported line %q", t)
 		}
 	}
+	stripMode := func(t string) string {
+		t = strings.TrimSpace(t)
+		if t != "" && strings.ContainsRune("#$@<>*{}", rune(t[0])) {
+			return t[1:]
+		}
+		return t
+	}
 	for _, p := range ins {
+		p.a, p.b = stripMode(p.a), stripMode(p.b)
 		a, err := eval(p.a)
 		if err != nil {
 			k.WantErr = true
